@@ -455,8 +455,17 @@ fn check_width(idx: usize, case: &Value) -> Option<Value> {
         pieces.push(cur);
     }
     let script: Vec<usize> = case["script"].as_array().unwrap().iter().map(|v| v.as_u64().unwrap() as usize).collect();
-    let enc = match catch(|| log4rs::encode::pattern::PatternEncoder::new(&pattern)) {
-        Ok(e) => e,
+    // every third case builds the encoder from a configuration value
+    let enc: Box<dyn log4rs::encode::Encode> = match catch(|| -> Result<Box<dyn log4rs::encode::Encode>, String> {
+        if idx % 3 == 2 {
+            let v: serde_value::Value = serde_json::from_value(json!({"pattern": pattern})).unwrap();
+            log4rs::config::Deserializers::default().deserialize::<dyn log4rs::encode::Encode>("pattern", v).map_err(|e| e.to_string())
+        } else {
+            Ok(Box::new(log4rs::encode::pattern::PatternEncoder::new(&pattern)))
+        }
+    }) {
+        Ok(Ok(e)) => e,
+        Ok(Err(e)) => return Some(json!({"what": "encoder from configuration failed", "pattern": pattern, "error": e})),
         Err(p) => return Some(json!({"what": "PatternEncoder::new panicked", "pattern": pattern, "error": p})),
     };
     let mut cap = Cap::new(script);
